@@ -22,6 +22,7 @@ use std::fmt::Write as _;
 mod bodies;
 mod emit;
 mod graph;
+mod ops;
 
 // ------------------------------------------------------------------------------------------------
 // data
@@ -1108,6 +1109,10 @@ fn main() {
     if args.get(1).map(|a| a == "--bodies").unwrap_or(false) {
         // Layer P: bodies of the pointer functions as PtrLang programs (see bodies.rs)
         std::process::exit(bodies::main(&args[2..]));
+    }
+    if args.get(1).map(|a| a == "--ops").unwrap_or(false) {
+        // Layer P2: bodies of the composite operations of LruCache as OpLang programs (see ops.rs)
+        std::process::exit(ops::main(&args[2..]));
     }
     let repo = std::env::var("VERIF_REPO").unwrap_or_else(|_| "/repo".to_string());
     let out_v = args.get(1).cloned().unwrap_or_else(|| "/verif/coq/Gen/Sigs.v".to_string());
